@@ -16,7 +16,9 @@ CLAIMED = {
               "cutoff <= level; monotone in the level; permutation invariance; non-finite entries ignored), proved for "
               "all lists and levels, plus a correspondence check of fdr.calc_post_err_prob_cutoff against the model "
               "evaluated inside Coq on grid-valued multisets with NaN/inf at every position. Because the spec is "
-              "proved to determine the result, every disagreement is a concrete failing input."),
+              "proved to determine the result, every disagreement is a concrete failing input. The two call sites the property "
+              "names (the writer's identified-precursor filter, the scoring strategy's peptide counting) are driven with rows "
+              "in file order and match-between-runs NaNs and must end up with the function's value on the plain list."),
         note=COMMON_NOTE + "Float running mean assumed exact on the generated grid (argument in evidence.assumptions); "
              "off-grid rounding modelled, not verified. Axioms: none.",
         technique="Coq proof over integer-scaled model + in-Coq (vm_compute) differential correspondence",
@@ -40,7 +42,10 @@ CLAIMED["C06"] = dict(
           "proteins with counts in group order, majority = count >= max/2, best peptide = minimal (PEP, peptide), "
           "number and flags from the listed proteins, score and q unchanged); row omitted iff keep-all is off and all "
           "counts are zero; rows keep the ranking's non-increasing score order. Correspondence of from_protein_group(s) "
-          "against the model on generated groups incl. repeated identifiers, ties, every cutoff, both keep-all settings."),
+          "against the model on generated groups incl. repeated identifiers, ties, every cutoff, both keep-all settings. "
+          "Which option decides the count cutoff: a first pass ignores the PSM-level FDR, methods without a rescue step ignore both "
+          "FDR options (theorems over Model/Pipeline.v), and for rescue methods the cutoff is the oracle applied to (PEPs of the final "
+          "grouping, PSM-level FDR) - the level is an argument of the recorded oracle, so asking for another level is a disagreement."),
     note=COMMON_NOTE + "Theorems assume one evidence entry per peptide within a group (guaranteed by the pipeline's "
          "dict keyed by peptide). Axioms: none.",
     technique="Coq proof (sorted-scan = declarative filter count) + in-Coq differential correspondence",
@@ -125,7 +130,8 @@ CLAIMED["C04"] = dict(
           "partition of exactly the first-pass proteins with no empty group; groups that are no graph node (all groups with a "
           "peptide of their own) survive unchanged; remnants = former group-mates that kept nothing; placeholders exist exactly for "
           "completely absorbed groups and carry the marker that keeps them out of the report; no unidentified group => plain subset "
-          "grouping. PARTIAL: 'merged iff inseparable' and 'only within a connected component' are decided by the exact "
+          "grouping; the rescue cutoff is 10^-(lowest score among the first-pass rows with q < threshold, among all rows when none) "
+          "and the threshold reaches the result of the whole inference function only through it. PARTIAL: 'merged iff inseparable' and 'only within a connected component' are decided by the exact "
           "correspondence plus a brute-force monitor of all C04 clauses on the implementation's output, not by a theorem."),
     note=COMMON_NOTE + "Min-cut search not modelled (monitored contract). rescue_partition assumes the initial components are "
          "leading proteins of distinct groups (checked on every recorded call). np.power tabulated. Axioms: none.",
@@ -140,7 +146,7 @@ CLAIMED["C07"] = dict(
           "unread without the razor option. PARTIAL: the hash seed, numpy's RNG stream and networkx internals are runtime "
           "behaviour the model cannot exhibit; they are explored by the correspondence: all 27 shipped methods against the model "
           "with recorded oracles, random call histories on a re-used MethodConfig versus fresh ones, and CLI runs under 4 (quick) "
-          "/ 8 (thorough) PYTHONHASHSEED values compared byte for byte."),
+          "/ 8 (thorough) PYTHONHASHSEED values compared byte for byte (single-method and three-method command lines, every written file)."),
     note=COMMON_NOTE + "PARTIAL (interpreter hash seed, numpy RNG stream, networkx internals observed not proved). Scores, PEP "
          "cutoffs, shuffles and splitter answers are recorded oracles here (own models: C05, C17, C02/C14, C04). Axioms: none.",
     technique="Coq proof of history independence over an explicit state-threading model + schedule exploration (call histories, hash seeds) as correspondence",
@@ -153,8 +159,10 @@ CLAIMED["C18"] = dict(
           "do_competition ranking with calculate_protein_fdrs q-values (so C01/C02/C06 apply). Correspondence: the inference of "
           "every shipped method against Model/Pipeline.v; the regenerated table against parse_method_toml's objects; subprocess "
           "CLI runs of every method on generated input of the type it reads (MaxQuant, Percolator, FragPipe, Sage, DIA-NN tsv) "
-          "with the row-level monitor, without --fasta (own refusal expected), with input of another type (skip expected), two "
-          "methods at once."),
+          "with the row-level monitor, without --fasta (own refusal expected), with input of another type (skip expected), several "
+          "methods at once; and a glue differential: under randomly drawn options (keep-all, both FDR options, digestion parameters "
+          "incl. two parameter sets, decoy / gene-level / accession flags, with and without FASTA) the table the command line writes "
+          "is byte-identical to the hand-placed composition of the functions the models are tied to."),
     note=COMMON_NOTE + "Translator harness/gen_tables.py trusted (fail-closed; its output is compared with the real parser's "
          "objects). Inputs where no group has any evidence are outside the domain. Parsing/writing layers are exercised by CLI "
          "runs, not modelled here (C10/C13). Axioms: none.",
@@ -278,7 +286,9 @@ CLAIMED["C12"] = dict(
           "else empty'; total intensity = sum over experiments for any number of SILAC channels; iBAQ = intensity / max(1, #theoretical "
           "peptides of the leading protein); evidence ids are the sorted ids of the counted rows; the table has one row per group with "
           "precursors in reported order. Correspondence: the real add_precursor_quants + append_quant_columns (real column "
-          "classes) on generated evidence files, every cell compared."),
+          "classes) on generated evidence files, every cell compared; the two command-line routes (picked_group_fdr --do_quant and "
+          "the standalone quantification entry point fed with the first one's table) must agree on every column and ask the cutoff "
+          "function for the --psm_fdr_cutoff level."),
     note=COMMON_NOTE + "Rows enter the model as the tool's parser yields them (C10). calc_post_err_prob_cutoff is a recorded oracle keyed by "
          "the exact PEP list (its contract: C17). Intensities on a grid where float addition is exact; iBAQ floats compared through "
          "correct rounding of the exact quotient. TMT and sequence-coverage columns and the experimental-design override are not modelled "
